@@ -83,7 +83,8 @@ def check_c14(ctx):
 
 
 C19_COSTS = [(1, 1, 2, 2), (1, 1, 0, 0), (2, 1, 1, 3), (1, 2, 3, 1), (3, 1, 5, 2), (1, 3, 1, 1),
-             (1, 1, 5, 4), (1, 1, 10, 10), (2, 3, 7, 1), (1, 4, 0, 3)]
+             (1, 1, 5, 4), (1, 1, 10, 10), (2, 3, 7, 1), (1, 4, 0, 3), (3, 1, 6, 6), (5, 2, 20, 10),
+             (1, 4, 1, 1, 4), (10, 10, 25, 0, 10)]      # the last two are fractional: uf = 0.25; wd = 2.5, rd = 0
 
 
 def check_c19(ctx):
